@@ -66,8 +66,10 @@ def compute_pareto_optimal_points(
     if feasible_points is None:
         feasible_points = full(obj_values.shape[0], True)
 
-    def any_ax1_all(arr):
-        return np_all(np_any(arr, axis=1))
+    def is_not_dominated(obj, others):
+        return not np_any(
+            np_all(others <= obj, axis=1) & np_any(others < obj, axis=1)
+        )
 
     # Store the feasible indexes
     feasible_indexes = []
@@ -81,9 +83,9 @@ def compute_pareto_optimal_points(
     obj_values_filtered = obj_values[feasible_indexes, :]
     for i, feasible_index in enumerate(feasible_indexes):
         obj = obj_values[feasible_index]
-        before_are_worse = any_ax1_all(obj_values_filtered[:i] > obj)
-        after_are_worse = any_ax1_all(obj_values_filtered[i + 1 :] > obj)
-        pareto_optimal[feasible_index] = before_are_worse and after_are_worse
+        pareto_optimal[feasible_index] = is_not_dominated(
+            obj, obj_values_filtered[:i]
+        ) and is_not_dominated(obj, obj_values_filtered[i + 1 :])
 
     return pareto_optimal
 
